@@ -8,6 +8,7 @@ from ..core import Tree, Func, dotted, src, AnalysisError, AnchorMissing, body_w
 from ..framework import Finding, RuleResult
 from ..norm import try_fold, strip_stmts, fold, NotConst
 from ..symeval import value_of, Unknown, Sym
+from ..cfg import cfg_of
 
 
 # ------------------------------------------------------------------ tiny integer-expression normaliser
@@ -328,18 +329,40 @@ def rule_E1(tree: Tree) -> RuleResult:
             width = args[1] if dotted(v.func) == "int.to_bytes" else args[0]
             ok = dotted(base) == result_var and isinstance(width, int) and 8 <= width <= 12 and "big" in [a for a in args if isinstance(a, str)] + [try_fold(k.value) for k in v.keywords]
     r.ob(ok, Finding("E1", f"{key}:result-encoding", "the reconstructed number must be returned big-endian, at least 8 bytes wide (62-bit numbers)", m.line(f.node)))
-    # largest update: only when result > largest, into the direction's own table, same space key as the read
+    # largest update (RFC 9000 A.3: "largest_pn is the largest packet number of a packet that has been successfully processed"): the reconstruction itself
+    # writes nothing; decrypt_packet raises the table through set_largest_packet_number, after the AEAD call succeeded, max-like, in the direction's own table
     r.instances += 1
-    upd_ok = False
-    for s2 in body:
-        if isinstance(s2, ast.If) and s2 is not st:
-            c = nf_cmp(s2.test, env)
-            if c == (("<", L, ("opaque", result_var)),) or c == nf_cmp(ast.parse(f"{result_var} > {largest_var}", mode="eval").body, {largest_var: L}):
-                writes = [x for x in ast.walk(s2) if isinstance(x, ast.Assign) and isinstance(x.targets[0], ast.Subscript)
-                          and "packet_number_" in (dotted(x.targets[0].value) or "")]
-                upd_ok = len(writes) == 2 and all(dotted(w.value) == result_var for w in writes)
-    r.ob(upd_ok, Finding("E1", f"{key}:largest-update", "the largest-seen number must be raised to the reconstructed number only when that is larger "
-                                                         "(max-like), in the direction's own table", m.line(f.node)))
+    writes_here = [x for x in ast.walk(f.node) if isinstance(x, (ast.Assign, ast.AugAssign)) and any(
+        isinstance(t, ast.Subscript) and "packet_number_" in (dotted(t.value) or "") for t in (x.targets if isinstance(x, ast.Assign) else [x.target]))]
+    dp = tree.func("quic.quic_session", "QuicSession.decrypt_packet")
+    cfgd = cfg_of(dp.node)
+    aead = [c for c in body_walk(dp.node) if isinstance(c, ast.Call) and dotted(c.func) == "decryptor.decrypt"]
+    upd = [c for c in body_walk(dp.node) if isinstance(c, ast.Call) and dotted(c.func) == "self.set_largest_packet_number"]
+    upd_ok = not writes_here and len(aead) == 1 and len(upd) == 1
+    detail = f"{len(writes_here)} table writes inside the reconstruction, {len(upd)} update call(s) in decrypt_packet"
+    if upd_ok:
+        a_n, u_n = cfgd.node_of(aead[0]), cfgd.node_of(upd[0])
+        upd_ok = cfgd.dominates(a_n, u_n) and a_n != u_n and [src(a) for a in upd[0].args] == ["quic_packet", "int.from_bytes(packet_number, 'big', signed=False)"]
+        detail = "the update must follow the AEAD call and carry the reconstructed number"
+    if upd_ok:
+        sl = tree.cls("quic.quic_session", "QuicSession").methods.get("set_largest_packet_number")
+        upd_ok = sl is not None
+        if upd_ok:
+            pn_param = sl.params[2]
+            cfgs = cfg_of(sl.node)
+            arms = {}
+            for n2 in cfgs.nodes:
+                if n2.kind == "stmt" and isinstance(n2.ast, ast.Assign) and isinstance(n2.ast.targets[0], ast.Subscript):
+                    tbl = dotted(n2.ast.targets[0].value) or ""
+                    facts = [(src(e), t) for e, t in cfgs.facts_at(n2.id)]
+                    d = "server" if tbl.endswith("_server") else "client" if tbl.endswith("_client") else "?"
+                    want_dir = any(s2 == "quic_packet.isserver" and t is (d == "server") for s2, t in facts)
+                    want_max = any(s2 == f"{pn_param} > {tbl}[PACKET_TYPE_MAP[quic_packet.packet_type]]" and t for s2, t in facts)
+                    arms[d] = want_dir and want_max and src(n2.ast.value) == pn_param and src(n2.ast.targets[0].slice) == "PACKET_TYPE_MAP[quic_packet.packet_type]"
+            upd_ok = arms == {"server": True, "client": True}
+            detail = f"set_largest_packet_number arms: {arms}"
+    r.ob(upd_ok, Finding("E1", f"{key}:largest-update", "the largest-seen number of a space may be raised only by a packet that was authenticated, to the reconstructed number, only when "
+                                                         f"that is larger (max-like), in the direction's own table — {detail}", m.line(f.node)))
     # early special case: must be subsumed by A.3: condition includes largest == 0, returns the raw truncated field, updates largest := truncated
     r.instances += 1
     sub_ok = True
